@@ -86,10 +86,11 @@ func thmDeleteRemovesExtensions(t *Trie, b, x []byte) {
 //@   props C15
 //@   requires forall y ref :: y != nil ==> !isnil(y.m)
 //@   requires forall y ref, k int :: has(y.m, k) ==> y.m[k] != nil
-//@   requires closed(heaphas(y0.m), heapval(y0.m), alloc)
+//@   requires closed(heaphas(y0.m), heapval(y0.m), alloc) && inj(heaphas(y0.m), heapval(y0.m), alloc)
 //@   requires len(x) > 0
-// New returns a live node without children: the heap stays well formed (so
-// the preconditions of Has/Add/Delete hold for the new trie), Has(x) is false
+// New returns a live node without children: the heap stays well formed and
+// tree shaped (so the preconditions of Has/Add/Delete and of the frame theorem
+// hold for the new trie), Has(x) is false
 // for every non-empty x and true for the empty sequence.
 func thmNewIsEmpty(y0 *Trie, x []byte) {
 	t := New()
@@ -97,9 +98,43 @@ func thmNewIsEmpty(y0 *Trie, x []byte) {
 	//@ assert forall y ref :: y != nil ==> !isnil(y.m)
 	//@ assert forall y ref, k int :: has(y.m, k) ==> y.m[k] != nil
 	//@ assert closed(heaphas(t.m), heapval(t.m), alloc)
+	//@ assert tree(heaphas(t.m), heapval(t.m), alloc, t)
 	h := t.Has(x)
 	e := t.Has(x[:0])
 	//@ assert mark(offset(x))
 	//@ assert !h && e
 	_, _ = h, e
+}
+
+//@ theorem C15.deleteKeepsDiverging
+//@   props C15
+//@   requires t != nil && t <= alloc
+//@   requires forall y ref :: y != nil ==> !isnil(y.m)
+//@   requires forall y ref, k int :: has(y.m, k) ==> y.m[k] != nil
+//@   requires closed(heaphas(t.m), heapval(t.m), alloc) && tree(heaphas(t.m), heapval(t.m), alloc, t)
+//@   requires 0 <= d && d < len(x) && d < len(b) && x[d] != b[d] && forall j int :: 0 <= j && j < d ==> x[j] == b[j]
+//@   let H0 := old(heaphas(t.m))
+//@   let V0 := old(heapval(t.m))
+//@   let A0 := old(alloc)
+//@   let X := rawarr(x)
+//@   let OX := offset(x)
+//@   let B := rawarr(b)
+//@   let OB := offset(b)
+// "All other sequences are unchanged", for a tree-shaped trie (every node has one
+// parent link, none leads to the root; Add and Delete preserve this): a sequence
+// x that leaves b's path at position d (it agrees with b on the first d bytes and
+// differs at byte d) is still held after Delete(b) if it was held before.
+func thmDeleteKeepsDiverging(t *Trie, b, x []byte, d int) {
+	h0 := t.Has(x)
+	r := t.Delete(b)
+	h1 := t.Has(x)
+	//@ assert mark(offset(x)) && mark(offset(b)) && mark(len(x)) && mark(len(b)) && mark(d) && mark(d + 1)
+	//@ assert !r ==> (h0 ==> h1)
+	//@ assert r && h0 ==> chain(H0, V0, t, X, OX, len(x)) && chain(H0, V0, t, B, OB, len(b)) && prunedOnly(H0, V0, heaphas(t.m), A0, t, B, OB, len(b))
+	//@ assert r && h0 ==> walk(H0, V0, t, X, OX, d) == walk(H0, V0, t, B, OB, d)
+	//@ assert r && h0 ==> heaphas(t.m)[walk(H0, V0, t, X, OX, d)][x[d]]
+	//@ assert r && h0 ==> forall k int :: {walk(H0, V0, t, X, OX, k)} 0 <= k && k < len(x) ==> heaphas(t.m)[walk(H0, V0, t, X, OX, k)][X[OX + k]]
+	//@ assert r && h0 ==> chain(heaphas(t.m), heapval(t.m), t, X, OX, len(x))
+	//@ assert h0 ==> h1
+	_, _, _ = h0, r, h1
 }
